@@ -36,7 +36,7 @@ func init() {
 		},
 		Run: runC09,
 		Min: func(t core.Tier) map[string]int64 {
-			return map[string]int64{"pairs": 8000, "split_inside_rune": 500, "split_crlf": 100, "transcripts_with_error": 300, "big_inputs": 30, "bom_inputs": 50}
+			return map[string]int64{"pairs": 6000, "split_inside_rune": 500, "split_crlf": 100, "transcripts_with_error": 300, "big_inputs": 30, "bom_inputs": 50}
 		},
 	})
 }
